@@ -15,7 +15,9 @@ RULE = ("addresses generated from the data-file grammar: N/B/F/L word form, /bit
         "command the reference target received (file, type, element, sub-element, size, mask) with what the address denotes; writes (word, "
         "{count}, bit forms; values over the element type) are followed by a diff of the whole data table (only the addressed bit/words may "
         "change) and a read-back; malformed addresses (unknown file letter, file 0/256+, element 256+, bit 16+, Bf/4096+) must raise "
-        "RequestError. distinct = (form, file type, element class, bit, op) evaluated")
+        "RequestError; addresses of files the data table does not hold (absent, other type, shorter than the element) and any non-zero PCCC status byte forced on a valid request must "
+        "give a falsy Tag with a status text and change nothing; writes of values the element type cannot hold or of fewer values than {count} "
+        "may neither report success nor change the table. distinct = (form, file type, element class, bit, op) evaluated")
 ASSUMPTIONS = [
     "ST/A/R files and timer/counter writes are outside the property; leading zeros, counts on bit addresses and I/O words beyond 4 are don't-cares",
     "reference data-table model: N,B,S,I,O 1 word; F,L 2 words; T,C 3 words (control, PRE, ACC)",
@@ -26,10 +28,13 @@ ANCHORS = [
     ("pycomm3/slc_driver.py", "request_status"), ("pycomm3/slc_driver.py", "SLCDriver._msg_start"),
 ]
 FILES = {"N": [7, 9, 120, 254, 255], "B": [3, 10, 13, 253], "F": [8, 11, 200], "L": [12, 14], "T": [4, 20], "C": [5, 21]}
+# files the data table does not hold, or holds with another type: the controller answers with an error status
+ABSENT = {"N": [30, 8, 3], "B": [40, 7], "F": [50, 7], "L": [60, 9], "T": [70, 5], "C": [71, 4]}
 
 
-def gen_address(rng, for_write):
+def gen_address(rng, for_write, files=FILES):
     r = rng.random()
+    FILES = files
     case = (lambda s: s.lower()) if rng.random() < 0.3 else (lambda s: s)
     elem = rng.choice([0, 1, 2, 15, 16, 100, 253, 254, 255, rng.randrange(256)])
     if r < 0.30:
@@ -110,7 +115,7 @@ def run(ctx):
     for sci in range(nscen):
         try:
             b = Bench(rng)
-            tab = refslc.DataTable.random(rng)
+            tab = refslc.DataTable.random(rng, short=sci % 2 == 1)
             dev = refslc.SLCDevice(rt.Identity(name="1747-L552/C SLC 5/05"), rng, b.log, tab)
             pol = rt.Policy()
             pol.accept_large_fo = rng.random() < 0.5
@@ -140,7 +145,11 @@ def run(ctx):
             work = [("read", f"B{rng.choice(FILES['B'])}/{n}") for n in bn]
             for _ in range(ops):
                 r = rng.random()
-                if r < 0.5:
+                if r < 0.05:
+                    work.append((rng.choice(["read", "write"]), gen_address(rng, rng.random() < 0.5, ABSENT)))
+                elif r < 0.08:
+                    work.append(("badvalue", gen_address(rng, True)))
+                elif r < 0.5:
                     work.append(("read", gen_address(rng, False)))
                 elif r < 0.9:
                     work.append(("write", gen_address(rng, True)))
@@ -167,6 +176,59 @@ def run(ctx):
                 ecls = "255" if a["element"] == 255 else "254" if a["element"] == 254 else "0" if a["element"] == 0 else "mid"
                 res.seen(op, form, a["type"], ecls, a["file"] in (1, 255), a["bit"], text != text.upper())
                 wit = {"address": text, "denotes": {k: v for k, v in a.items() if k != "kind"}}
+                if op == "badvalue":
+                    # a value the element type cannot hold, or fewer values than {count}: nothing may be written and success may not be reported
+                    if a["ctsub"] or a["bit"] is not None or not refslc.device_accepts(tab, a):
+                        continue
+                    lim = 2 ** 31 if a["type"] == "L" else 2 ** 15
+                    badv = rng.choice([lim, -lim - 1, lim * 4, "x", None, [1, 2]]) if a["type"] != "F" else rng.choice(["x", None, [1.0], 1e39, -1e39])
+                    kind = "value"
+                    if a["count"] > 1:
+                        if rng.random() < 0.5:
+                            badv, kind = [value_for(dict(a, count=1), rng) for _ in range(rng.randrange(0, a["count"]))], "short"
+                        else:
+                            badv = [value_for(dict(a, count=1), rng) for _ in range(a["count"])]
+                            badv[rng.randrange(a["count"])] = rng.choice([lim * 2, "x", None]) if a["type"] != "F" else rng.choice(["x", None])
+                    before = tab.snapshot()
+                    st, tg_ = b.call("write", drv.write, (text, badv))
+                    res.ev()
+                    res.seen("badvalue", kind, form, a["type"])
+                    if tab.snapshot() != before:
+                        res.violation(f"bad-value-written:{kind}", f"write({text!r}, {badv!r:.80}) changed the data table (-> {tg_!r:.120})", wit)
+                        for n, (ty_, w) in before.items():
+                            tab.files[n] = (ty_, list(w))
+                    elif st == "ok" and tg_:
+                        res.violation(f"bad-value-success:{kind}", f"write({text!r}, {badv!r:.80}) reported success {tg_!r:.120} although nothing was written", wit)
+                    elif st == "exc" and not isinstance(tg_, p.PycommError):
+                        res.violation(f"bad-value-foreign-exception:{kind}:{type(tg_).__name__}", f"write({text!r}, {badv!r:.80}) raised {tg_!r:.160}", wit)
+                    continue
+                forced = None
+                if rng.random() < 0.03:
+                    forced = dev.force_sts = rng.choice([0x10, 0x20, 0x30, 0x40, 0x50, 0x60, 0x70, 0x80, 0x90, 0xB0, 0xF0, rng.randrange(1, 256)])
+                if forced is not None or not refslc.device_accepts(tab, a):
+                    # the address is in the grammar but the controller does not hold it: it answers with an error status,
+                    # the result must be a falsy Tag carrying a status text, and nothing may change
+                    if a["ctsub"] and op == "write":
+                        dev.force_sts = None
+                        continue
+                    before = tab.snapshot()
+                    ncmd = len(dev.commands)
+                    st, tg_ = b.call("read", drv.read, text) if op == "read" else b.call("write", drv.write, (text, value_for(a, rng)))
+                    dev.force_sts = None
+                    res.ev()
+                    sts = dev.commands[-1].get("sts") if len(dev.commands) > ncmd else None
+                    res.seen("device-refuses", op, form, a["type"], sts, forced is not None)
+                    if tab.snapshot() != before:
+                        res.violation(f"refused-{op}-changed-table", f"{op}({text!r}) on an address the controller does not hold changed the data table", wit)
+                        for n, (ty_, w) in before.items():
+                            tab.files[n] = (ty_, list(w))
+                    elif st != "ok":
+                        res.violation(f"refused-{op}-raises:{type(tg_).__name__}", f"{op}({text!r}): controller status {sts!r}; the call raised {tg_!r:.160} instead of returning a falsy Tag", wit)
+                    elif tg_ or not getattr(tg_, "error", None) or tg_.value is not None:
+                        res.violation(f"refused-{op}-not-falsy", f"{op}({text!r}): controller answered status {sts!r}; result {tg_!r:.160}", wit)
+                    elif len(dev.commands) > ncmd and forced is None:
+                        check_cmd(a, text, 0xA2 if op == "read" else 0xAB)
+                    continue
                 if op == "read":
                     want = refslc.expected_read(tab, a)
                     st, tg_ = b.call("read", drv.read, text)
